@@ -320,6 +320,36 @@ def rule_source_map(rep: Report, tk) -> None:
 		r.check(ok and not (col == 'end_column' and fwd), col, (TOKEN_PY, f.node.lineno), f'{col} is derived from {sorted({unparse(c) for c in ss})}: the line start of offset `{offset}` must be found by a backward search for the last line break before `{offset}` (rfind(\'\\n\', lo, {offset})); a forward search finds the first line break inside a multi-line token, so the end column of a triple-quoted string or a blank-line break is measured from the wrong line', unparse(v.right)[:120])
 
 
+def rule_joined_span(rep: Report, tk) -> None:
+	"""A joined token's text starts with the receiver's text (`self.string + ...`): its span must start where the receiver starts. The collections the
+	merged span is computed over must therefore contain the receiver, and begin / end must be taken as (line, column) PAIRS: the minimum of the lines and the
+	minimum of the columns taken separately is the position of no token at all."""
+	r = rep.rule('C13/joined-span-covers-all-parts', 'Token.joined computes the merged span over a collection that contains the receiver, comparing (line, column) pairs', floor=1)
+	f = tk.func('Token.joined')
+	if f is None:
+		r.skip('joined', (TOKEN_PY, 1), 'Token.joined vanished')
+		return
+	fx = FI(f)
+	vararg = f.node.args.vararg.arg if f.node.args.vararg else None
+	folds = [c_ for c_ in nodes(fx, ast.Call) if isinstance(c_.func, ast.Name) and c_.func.id in ('min', 'max') and c_.args]
+	if not folds:
+		r.skip('joined', f.where, 'Token.joined no longer folds the parts with min / max')
+		return
+	for c_ in folds:
+		coll = c_.args[0]
+		gens = [g.iter for g in ast.walk(coll) if isinstance(g, ast.comprehension)] or [coll]
+		has_self = any(any(isinstance(x, ast.Name) and x.id == 'self' for x in ast.walk(g)) for g in gens)
+		only_others = vararg is not None and all(unparse(g) == vararg for g in gens)
+		key = f'joined:{c_.func.id}:{unparse(coll)[:40]}'
+		if only_others and not has_self:
+			r.violate(key, (TOKEN_PY, c_.lineno), f'`{unparse(c_)[:90]}` ranges over `{vararg}` only: the receiver, whose text comes first in the joined token, is left out, so the merged span starts at the second part (an error at a line break merged around a comment is reported on a later line)', unparse(c_)[:120])
+			continue
+		keyed = next((kw.value for kw in c_.keywords if kw.arg == 'key'), None)
+		elt = coll.elt if isinstance(coll, (ast.ListComp, ast.GeneratorExp)) else None
+		pairwise = (isinstance(keyed, ast.Lambda) and isinstance(keyed.body, ast.Tuple) and len(keyed.body.elts) == 2) or (isinstance(elt, ast.Tuple) and len(elt.elts) == 2)
+		r.check(has_self and pairwise, key, (TOKEN_PY, c_.lineno), f'`{unparse(c_)[:90]}`: the merged span must be taken over the receiver and the other parts, comparing (line, column) pairs (a separate minimum of lines and of columns is the position of no part)', unparse(c_)[:120])
+
+
 def run(rep: Report, tier: str) -> None:
 	idx = SourceIndex()
 	tk, tz = idx.mod(TOKEN_PY), idx.mod(TOKENIZER_PY)
@@ -434,6 +464,7 @@ def run(rep: Report, tier: str) -> None:
 	rule_context_fresh(rep, tz)
 	rule_lexer_state(rep, idx)
 	rule_source_map(rep, tk)
+	rule_joined_span(rep, tk)
 
 	# domain order
 	ro = rep.rule('C13/domain-order', 'no comment/quote opener starts with a character consumed by an earlier character-set domain; inside one opener list no earlier opener is a proper prefix of a later one', floor=10)
